@@ -100,6 +100,12 @@ inductive AlterOpt where
   | addFk (f : Fk)
   | dropFk (n : String)
 
+/-- `TypeAlterOpt`; placement: `some (false, v)` BEFORE v, `some (true, v)` AFTER v -/
+inductive TypeAlterOpt where
+  | add (value : String) (placement : Option (Bool × String)) (ifNotExists : Bool)
+  | rename (n : String)
+  | renameValue (a b : String)
+
 inductive Stmt where
   | create (c : Create)
   | alter (table : Option TName) (opts : List AlterOpt)
@@ -111,6 +117,13 @@ inductive Stmt where
   | indexDrop (name : Option String) (table : Option TName) (ifExists : Bool)
   | fkCreate (f : Fk)
   | fkDrop (name : Option String) (table : Option TName)
+  /-- Postgres `CREATE TYPE`: name parts, `AS ENUM`, values -/
+  | typeCreate (name : Option (List String)) (asEnum : Bool) (values : List String)
+  /-- option: 0 CASCADE, 1 RESTRICT -/
+  | typeDrop (names : List (List String)) (ifExists : Bool) (opt : Option Nat)
+  | typeAlter (name : Option (List String)) (opt : Option TypeAlterOpt)
+  | extCreate (name : String) (schema version : Option String) (cascade ifNotExists : Bool)
+  | extDrop (name : String) (ifExists cascade restrict : Bool)
 
 /-! ## names -/
 
@@ -532,6 +545,28 @@ def rTables : Bool → List TName → Pieces
   | _, [] => []
   | first, t :: r => (if first then [] else [S ", "]) ++ rTable 3 t ++ rTables false r
 
+/-- `prepare_value` of a string (a value written through the writer) -/
+def strV (s : String) : Piece := .p ⟨"String", .str s.toList⟩
+
+def rStrVs : Bool → List String → Pieces
+  | _, [] => []
+  | first, v :: r => (if first then [] else [S ", "]) ++ [strV v] ++ rStrVs false r
+
+def rTypeRefs : Bool → List (List String) → Pieces
+  | _, [] => []
+  | first, n :: r => (if first then [] else [S ", "]) ++ rParts true n ++ rTypeRefs false r
+
+/-- `prepare_alter_type_opt` -/
+def rTypeAlterOpt : TypeAlterOpt → Pieces
+  | .add v placement ine =>
+    [S " ADD VALUE "] ++ (if ine then [S "IF NOT EXISTS "] else []) ++ [strV v] ++
+      (match placement with
+       | some (false, b) => [S " BEFORE ", strV b]
+       | some (true, a) => [S " AFTER ", strV a]
+       | none => [])
+  | .rename n => [S " RENAME TO ", strV n]
+  | .renameValue a b => [S " RENAME VALUE ", strV a, S " TO ", strV b]
+
 def rStmt (d : Backend) : Stmt → Pieces
   | .create c => rCreate d c
   | .alter t opts => rAlter d t opts
@@ -545,5 +580,23 @@ def rStmt (d : Backend) : Stmt → Pieces
   | .indexDrop n t ie => rIndexDrop d n t ie
   | .fkCreate f => rFkCreate d 1 f
   | .fkDrop n t => rFkDrop d 1 n t
+  | .typeCreate name asEnum values =>
+    [S "CREATE TYPE "] ++ (match name with | some n => rParts true n | none => []) ++
+      (if asEnum then [S " AS ", S "ENUM"] else []) ++
+      (if values.isEmpty then [] else [S " ("] ++ rStrVs true values ++ [S ")"])
+  | .typeDrop names ie opt =>
+    [S "DROP TYPE "] ++ (if ie then [S "IF EXISTS "] else []) ++ rTypeRefs true names ++
+      (match opt with | some o => [S " ", S (if o == 0 then "CASCADE" else "RESTRICT")] | none => [])
+  | .typeAlter name opt =>
+    [S "ALTER TYPE "] ++ (match name with | some n => rParts true n | none => []) ++
+      (match opt with | some o => rTypeAlterOpt o | none => [])
+  | .extCreate name schema version cascade ine =>
+    [S "CREATE EXTENSION "] ++ (if ine then [S "IF NOT EXISTS "] else []) ++ [.raw name.toList] ++
+      (match schema with | some x => [S " WITH SCHEMA ", .raw x.toList] | none => []) ++
+      (match version with | some x => [S " VERSION ", .raw x.toList] | none => []) ++
+      (if cascade then [S " CASCADE"] else [])
+  | .extDrop name ie cascade restrict =>
+    [S "DROP EXTENSION "] ++ (if ie then [S "IF EXISTS "] else []) ++ [.raw name.toList] ++
+      (if cascade then [S " CASCADE"] else []) ++ (if restrict then [S " RESTRICT"] else [])
 
 end SeaQ.Ddl
